@@ -9,8 +9,16 @@ For each task (fixed examples + generated strong-equivalence pairs):
      (driver op `fan_in`, i.e. Model/Prover.fan_in over `prove` of the planned bytes, fed with the
      arrivals in the order anthem printed them);  the bytes each prover instance received  vs  the
      --save-problems files (each exactly once);  the prover's arguments;  distinct problem names.
-Run-level scenarios: no `vampire` in PATH; a prover that exits without reading its input; a worker
-thread that dies (problem whose TPTP rendering panics in debug builds).
+  4. the END of every run - the line `> Proving ended with R results for S problems` (printed iff a
+     worker died), the verdict line and the exit status - vs the run-level model (driver op
+     `verify_end`, Model/VerdictRun.v); the prover's arguments, the number of instances and the
+     choice sequential / thread pool vs the driver op `prover_config`.
+Run-level scenarios: no `vampire` in PATH; a prover that exits without reading its input;
+`worker_died`: `Vampire::prove` panics for chosen problems (hook `verif::prover_fault` of /repo,
+cargo feature `verif`, environment variables ANTHEM_VERIF_PROVER_PANIC_BEFORE/_AFTER; a second
+binary built with --features verif is used for this scenario only), every position, instances
+1..4 and auto, both decompositions;  `options`: values of -n / -t / -m (0, 1, huge, not a usize)
+under several CPU affinities.
 """
 import os
 import re
@@ -18,7 +26,7 @@ import sys
 
 sys.path.insert(0, os.path.dirname(os.path.abspath(__file__)))
 import clilib
-from clilib import vlib, log, bump
+from clilib import vlib, log, bump, Broken
 
 STATUS_WORDS = ["Theorem", "CounterSatisfiable", "ContradictoryAxioms", "Timeout", "MemoryOut", "GaveUp", "Error"]
 
@@ -83,6 +91,8 @@ PASS_KINDS = ["Theorem", "Theorem", "Theorem", "theorem_then_other", "nonzero_ex
 
 RESULT_RE = re.compile(r"^> Proving (.+) ended (with a SZS status|without a SZS status|with an error)$")
 SUBMIT_RE = re.compile(r"^> Proving (\S+)\.\.\.$")
+COUNT_RE = re.compile(r"^> Proving ended with (\d+) results for (\d+) problems$")
+HOOK_VARS = {"before": "ANTHEM_VERIF_PROVER_PANIC_BEFORE", "after": "ANTHEM_VERIF_PROVER_PANIC_AFTER"}
 
 
 def hexs(b):
@@ -90,17 +100,25 @@ def hexs(b):
 
 
 def parse_stdout(text):
-    """-> (submitted names in order, arrivals [(name|None, kind, detail)], verdict|None)"""
+    """-> (names announced in order, arrivals [(name|None, kind, detail)], verdict|None, info)
+    info: count = (R, S) of the line `> Proving ended with R results for S problems` or None; the exact count and
+    verdict lines; interleaved = a result was printed before the last problem was announced (the lazy iterator
+    of the sequential case; None when fewer than two problems were announced or no result was printed)"""
     lines = text.split("\n")
     sub, arrivals, verdict = [], [], None
+    info = {"count": None, "count_line": None, "verdict_line": None, "interleaved": None}
+    first_result, last_submit = None, None
     i = 0
     while i < len(lines):
         ln = lines[i]
         m = SUBMIT_RE.match(ln)
         if m:
             sub.append(m.group(1))
+            last_submit = i
         m = RESULT_RE.match(ln)
         if m:
+            if first_result is None:
+                first_result = i
             name, how = m.group(1), m.group(2)
             if how == "with a SZS status":
                 st = lines[i + 1] if i + 1 < len(lines) else ""
@@ -112,12 +130,20 @@ def parse_stdout(text):
                     j += 1
                 detail = lines[j][len("Error: "):] if j < len(lines) and lines[j].startswith("Error: ") else "?"
                 arrivals.append((None if how == "with an error" else name, "nostatus" if how != "with an error" else "error", detail))
+        m = COUNT_RE.match(ln)
+        if m:
+            info["count"] = (int(m.group(1)), int(m.group(2)))
+            info["count_line"] = ln
         if ln.startswith("> Success!"):
             verdict = True
+            info["verdict_line"] = ln
         elif ln.startswith("> Failure!"):
             verdict = False
+            info["verdict_line"] = ln
         i += 1
-    return sub, arrivals, verdict
+    if len(sub) >= 2 and first_result is not None:
+        info["interleaved"] = first_result < last_submit
+    return sub, arrivals, verdict, info
 
 
 def printed_of_model(res):
@@ -171,6 +197,85 @@ def split_sexps(s):
     return out
 
 
+
+
+def sx_str(s):
+    return '"' + s.replace("\\", "\\\\").replace('"', '\\"') + '"'
+
+
+def parse_model_end(ans):
+    """(end (count "l")|(nocount) (verdict "l")|(noverdict) <exit> <results>) -> dict"""
+    parts = split_sexps(ans)
+    if not parts or parts[0] != "end" or len(parts) != 5:
+        return None
+    unq = lambda x: bytes(x[x.index('"') + 1:x.rindex('"')], "latin1").decode("unicode_escape") if '"' in x else None
+    return {"count_line": unq(parts[1]), "verdict_line": unq(parts[2]), "exit": int(parts[3]), "results": int(parts[4])}
+
+
+USIZE_TEXT = re.compile(r"^\+?[0-9]+$")      # what <usize as FromStr> reads (clap's value parser for usize)
+
+
+def usize_of_text(t):
+    """the number an option value denotes, None when usize::from_str refuses the text (sign, blank, letters, empty).
+    Too large a number is left to the model (options_ok)."""
+    return int(t) if USIZE_TEXT.match(t) else None
+
+
+def hook_present():
+    """the fault-injection hook of /repo (fixes/hook-c10.diff; cargo feature `verif`)"""
+    f = os.path.join(vlib.REPO, "src", "verif.rs")
+    return os.path.isfile(f) and "fn prover_fault" in open(f).read()
+
+
+def affinity_prefix(cpus):
+    import shutil
+    return [shutil.which("taskset") or "/usr/bin/taskset", "-c", ",".join(map(str, cpus))] if cpus else []
+
+
+def calibrate(exe, fake, scratch, cpus, tag):
+    """num_cpus::get() as seen by an anthem process with the given CPU affinity: the --cores argument of `-m 0`"""
+    d = os.path.join(scratch, "cal-" + tag)
+    os.makedirs(d)
+    a = clilib.write(os.path.join(d, "a.lp"), "p :- q.\n")
+    b = clilib.write(os.path.join(d, "b.lp"), "p :- q, q.\n")
+    rr = clilib.run(affinity_prefix(cpus) + [exe, "verify", "--equivalence", "strong", "--no-timing", "-n", "1", "-m", "0", a, b],
+                    env={"FAKE_VAMPIRE_DIR": d, "PATH": fake, "FAKE_VAMPIRE_DEFAULT": "theorem"}, timeout=30)
+    seen = set()
+    g = os.path.join(d, "got")
+    for fn in (os.listdir(g) if os.path.isdir(g) else []):
+        if fn.endswith(".args"):
+            a = open(os.path.join(g, fn)).read().split("\n")
+            if "--cores" in a:
+                seen.add(a[a.index("--cores") + 1])
+    if len(seen) != 1 or not next(iter(seen)).isdigit():
+        raise Broken("harness: could not calibrate num_cpus::get() (no prover invocation recorded)", rr.err.decode("latin1")[-800:])
+    return int(next(iter(seen)))
+
+
+def expected_ncpu(exe, fake, scratch, cpus, tag):
+    """-> (the value the model is given for num_cpus::get(), the value observed through `-m 0`).
+    Without a cgroup CPU quota num_cpus::get() is the size of the affinity set of the process: that is what the
+    model is given (independent of anthem); with a quota the observed value has to be taken."""
+    seen = calibrate(exe, fake, scratch, cpus, tag)
+    if cgroup_quota() is None:
+        return (len(cpus) if cpus else len(os.sched_getaffinity(0))), seen
+    return seen, seen
+
+
+def cgroup_quota():
+    try:
+        q = open("/sys/fs/cgroup/cpu.max").read().split()
+        return None if q[0] == "max" else float(q[0]) / float(q[1])
+    except Exception:
+        return None
+
+
+OPTION_TEXTS_N = ["0", "1", "2", "3", "9", "64", "300", "+4", "007"]
+OPTION_TEXTS_T = ["0", "1", "60", "4294967296", "9223372036854775808", "18446744073709551615", "+5", "000"]
+OPTION_TEXTS_M = ["0", "1", "3", "16", "17", "1000", "18446744073709551615", "+2"]
+OPTION_TEXTS_BAD = ["18446744073709551616", "99999999999999999999999", "-1", "-0", "abc", "", "1.5", "1e3", " 1", "0x10", "١"]
+
+
 def extra(ctx, cfg, results):
     exe = clilib.anthem_exe()
     fake = clilib.fake_vampire_dir()
@@ -179,8 +284,31 @@ def extra(ctx, cfg, results):
     plans_per_task = 120 if thorough else 26
     n_generated = 60 if thorough else 12
     dist = {"verdict": {}, "instances": {}, "kinds": {}, "problems_per_task": {}, "scenario": {},
-            "arrival_order_differs_from_submission": 0, "runs": 0, "prover_invocations": 0}
+            "arrival_order_differs_from_submission": 0, "runs": 0, "prover_invocations": 0,
+            "worker_died": {"runs": 0, "pool": 0, "sequential": 0, "position_of_first_dead_problem": {}, "dead_per_run": {},
+                            "stage": {}, "decomposition": {}, "instances": {}, "others_all_theorem": 0},
+            "options": {"accepted": 0, "rejected": 0, "sequential": 0, "pool": 0, "ncpu": {}, "instances_value": {}}}
+    have_hook = hook_present()
+    exe_verif = None
+    if have_hook:
+        exe_verif = clilib.anthem_exe("verif")
     with clilib.Scratch("C10") as scratch:
+        # num_cpus::get() for the affinities used
+        allcpus = sorted(os.sched_getaffinity(0))
+        affs = {"all": None}
+        if len(allcpus) >= 3:
+            affs["3"] = allcpus[:3]
+        if len(allcpus) >= 2:
+            affs["1"] = allcpus[-1:]
+        ncpu = {}
+        for k, v in affs.items():
+            ncpu[k], seen = expected_ncpu(exe, fake, scratch, v, k)
+            if seen != ncpu[k]:
+                ctx.violation("`-m 0`: the --cores argument handed to the prover differs from num_cpus::get() = the size of the CPU affinity set of the process",
+                              {"kind": "custom-cli", "affinity": v, "observed": seen, "expected": ncpu[k],
+                               "command": "verify --equivalence strong -n 1 -m 0 a.lp b.lp  (a.lp: `p :- q.`, b.lp: `p :- q, q.`)"}, True)
+        dist["options"]["ncpu"] = dict(ncpu)
+
         r0 = clilib.rng(ctx, "tasks")
         tasks = []
         for name, eq, files, flags in FIXED:
@@ -194,6 +322,12 @@ def extra(ctx, cfg, results):
             clilib.write(os.path.join(d, "b.lp"), b)
             flags = r0.choice([[], ["--decomposition", "independent"], ["--no-simplify"], ["--direction", "backward"]])
             tasks.append((f"generated/{g}", "strong", [os.path.join(d, "a.lp"), os.path.join(d, "b.lp")], flags))
+        # the tasks of the worker_died scenario: every task without a --decomposition flag, under both decompositions
+        died_tasks = []
+        for name, eq, files, flags in tasks:
+            if "--decomposition" not in flags:
+                for dec in ("independent", "sequential"):
+                    died_tasks.append((f"{name}@{dec}", eq, files, flags + ["--decomposition", dec]))
 
         # 1. pre-runs
         def prerun(t):
@@ -207,8 +341,11 @@ def extra(ctx, cfg, results):
                     probs[fn[:-2]] = open(os.path.join(d, fn), "rb").read()
             return rr, probs
 
-        pre = clilib.pmap(prerun, tasks)
+        pre = clilib.pmap(prerun, tasks + died_tasks)
+        pre_died = pre[len(tasks):]
+        pre = pre[:len(tasks)]
         jobs = []
+        small_tasks = []
         for t, (rr, probs) in zip(tasks, pre):
             if rr.crashed:
                 ctx.violation("anthem crashed while generating problems", {"kind": "custom-cli", "task": t[0], "files": t[2], "stderr": rr.err.decode("latin1")[-800:]}, True)
@@ -216,7 +353,7 @@ def extra(ctx, cfg, results):
             if rr.rc == 0 and not probs:
                 # a task without any problem: the verdict is (vacuously) Success with no prover run
                 r = clilib.rng(ctx, "plans/" + t[0])
-                jobs.append(("plan", t, probs, 0, r.getrandbits(48)))
+                jobs.append(("plan", t, probs, 0, r.getrandbits(48), {"ncpu": ncpu["all"]}))
                 bump(dist["problems_per_task"], "0")
                 continue
             if rr.rc != 0 or len(probs) > 24:
@@ -224,23 +361,72 @@ def extra(ctx, cfg, results):
                 ctx.notes.append(f"task {t[0]} skipped: rc={rr.rc}, {len(probs)} problems; {rr.err.decode('latin1').strip().splitlines()[-1][:160] if rr.err.strip() else ''}")
                 continue
             bump(dist["problems_per_task"], str(len(probs)))
+            if 2 <= len(probs) <= 6:
+                small_tasks.append((t, probs))
             r = clilib.rng(ctx, "plans/" + t[0])
             for i in range(plans_per_task):
-                jobs.append(("plan", t, probs, i, r.getrandbits(48)))
-            jobs.append(("missing-executable", t, probs, 0, r.getrandbits(48)))
+                jobs.append(("plan", t, probs, i, r.getrandbits(48), {"ncpu": ncpu["all"]}))
+            jobs.append(("missing-executable", t, probs, 0, r.getrandbits(48), {"ncpu": ncpu["all"]}))
             if r.random() < 0.5 or thorough:
-                jobs.append(("noread", t, probs, 0, r.getrandbits(48)))
-        # the dying-worker scenario (finding F10, repaired by 3e60422).  The worker died of finding F3b (isize::MIN rendered
-        # to TPTP, debug build); since F3b is repaired too, the run takes the "rendering defect is gone" branch of run_job
-        dead = os.path.join(scratch, "dead")
-        clilib.write(os.path.join(dead, "a.lp"), "p(-9223372036854775808).\n")
-        clilib.write(os.path.join(dead, "b.lp"), "p(-9223372036854775808). q :- q.\n")
-        for n in ([1, 2, 3, 8] if not thorough else [1, 2, 3, 4, 5, 6, 7, 8]):
-            jobs.append(("dead-worker", ("dead-worker", "strong", [os.path.join(dead, "a.lp"), os.path.join(dead, "b.lp")], []), {}, n, n))
+                jobs.append(("noread", t, probs, 0, r.getrandbits(48), {"ncpu": ncpu["all"]}))
+
+        # 2. option values: -n / -t / -m over 0, 1, huge, other spellings, not a usize; three CPU affinities
+        ro = clilib.rng(ctx, "options")
+        if small_tasks:
+            triples = []
+            for a in OPTION_TEXTS_N:
+                triples.append((a, ro.choice(OPTION_TEXTS_T), ro.choice(OPTION_TEXTS_M)))
+            for a in OPTION_TEXTS_T:
+                triples.append((ro.choice(OPTION_TEXTS_N), a, ro.choice(OPTION_TEXTS_M)))
+            for a in OPTION_TEXTS_M:
+                triples.append((ro.choice(OPTION_TEXTS_N), ro.choice(OPTION_TEXTS_T), a))
+                triples.append(("0", ro.choice(OPTION_TEXTS_T), a))          # automatic number of instances
+            for a in OPTION_TEXTS_BAD:
+                k = ro.randrange(3)
+                tr = [ro.choice(OPTION_TEXTS_N), ro.choice(OPTION_TEXTS_T), ro.choice(OPTION_TEXTS_M)]
+                tr[k] = a
+                triples.append(tuple(tr))
+            for _ in range(200 if thorough else 20):
+                triples.append((ro.choice(OPTION_TEXTS_N), ro.choice(OPTION_TEXTS_T), ro.choice(OPTION_TEXTS_M)))
+            for i, (n_, t_, m_) in enumerate(triples):
+                t, probs = small_tasks[i % len(small_tasks)]
+                aff = list(affs)[i % len(affs)]
+                jobs.append(("options", t, probs, i, ro.getrandbits(48),
+                             {"n": n_, "t": t_, "m": m_, "cpus": affs[aff], "ncpu": ncpu[aff]}))
+
+        # 3. worker_died (finding F10, repaired by 3e60422): `prove` panics for chosen problems
+        if not have_hook:
+            ctx.violation("internal: the worker_died scenario cannot run: the tree under test has no `verif::prover_fault` "
+                          "(apply fixes/hook-c10.diff to the repository)", {"kind": "custom-cli", "repo": vlib.REPO}, False)
+        else:
+            rd = clilib.rng(ctx, "worker_died")
+            cands = [(t, probs) for t, (rr, probs) in zip(died_tasks, pre_died) if rr.rc == 0 and 1 <= len(probs) <= 8]
+            by_dec = {"independent": [c for c in cands if c[0][0].endswith("@independent")],
+                      "sequential": [c for c in cands if c[0][0].endswith("@sequential")]}
+            chosen = []
+            per_dec = 12 if thorough else 3
+            for dec, cs in by_dec.items():
+                # prefer tasks with several problems; always one shipped example and generated ones
+                cs = sorted(cs, key=lambda c: (-min(len(c[1]), 4), rd.random()))
+                chosen += cs[:per_dec]
+            idx = 0
+            for t, probs in chosen:
+                S = len(probs)
+                for n in ([1, 2, 3, 4, 0] if thorough else [1, 2, 3, 4]):
+                    sets = [[k] for k in range(S)]                     # every position
+                    if S >= 2:
+                        sets.append(sorted(rd.sample(range(S), rd.randint(2, S))))
+                    sets.append(list(range(S)))                        # every worker dies
+                    for ks in sets:
+                        for stage in (["before", "after"] if thorough else [("before", "after")[(idx + n) % 2]]):
+                            m_ = "1" if n != 0 else rd.choice(["1", "0", "3"])
+                            jobs.append(("worker_died", t, probs, idx, rd.getrandbits(48),
+                                         {"n": str(n), "m": m_, "positions": ks, "stage": stage, "ncpu": ncpu["all"]}))
+                            idx += 1
 
         def do(job):
             try:
-                return run_job(ctx, exe, fake, nopath, scratch, job)
+                return run_job(ctx, exe_verif if job[0] == "worker_died" else exe, fake, nopath, scratch, job)
             except Exception as e:  # a bug of the hook must not look like a pass
                 import traceback
                 return {"job": job[0], "task": job[1][0], "hook_error": traceback.format_exc()}
@@ -262,6 +448,28 @@ def extra(ctx, cfg, results):
                 dist["arrival_order_differs_from_submission"] += 1
             if o.get("nontrivial"):
                 ctx.nontrivial.add(o["key"])
+            wd = o.get("worker_died")
+            if wd:
+                w = dist["worker_died"]
+                w["runs"] += 1
+                w["pool" if wd["pool"] else "sequential"] += 1
+                bump(w["position_of_first_dead_problem"], str(wd["first"]))
+                bump(w["dead_per_run"], str(wd["dead"]))
+                bump(w["stage"], wd["stage"])
+                bump(w["decomposition"], wd["decomposition"])
+                bump(w["instances"], str(o.get("instances")))
+                if wd["others_all_theorem"]:
+                    w["others_all_theorem"] += 1
+                if sum(1 for x in ctx.samples if "dead_problems" in x) < 2 and wd["pool"] and wd["others_all_theorem"]:
+                    ctx.samples.insert(0, {"task": o["task"], "instances": o["instances"], "dead_problems": wd["names"], "stage": wd["stage"],
+                                        "last_lines": wd["last_lines"], "exit_status": wd["rc"]})
+            op = o.get("options")
+            if op:
+                w = dist["options"]
+                w["accepted" if op["accepted"] else "rejected"] += 1
+                if op["accepted"]:
+                    w["sequential" if op["sequential"] else "pool"] += 1
+                    bump(w["instances_value"], str(op["instances"]))
             if sum(1 for x in ctx.samples if "planned_outcomes" in x) < 3 and o["scenario"] == "plan" and o.get("kinds"):
                 ctx.samples.insert(0, {"task": o["task"], "instances": o["instances"], "planned_outcomes": o["kinds"],
                                     "arrival_order": o.get("arrival_names"), "printed_verdict": o.get("printed_verdict"),
@@ -273,62 +481,100 @@ def extra(ctx, cfg, results):
                 ctx.violation(what, payload, True)
         ctx.distribution["cli_verify_with_stand_in_prover"] = dist
         log(f"C10 CLI runs: {dist['runs']} anthem runs, {dist['prover_invocations']} stand-in prover invocations, "
-            f"verdicts {dist['verdict']}, {dist['arrival_order_differs_from_submission']} runs with arrival order != submission order")
+            f"verdicts {dist['verdict']}, {dist['arrival_order_differs_from_submission']} runs with arrival order != submission order; "
+            f"worker_died: {dist['worker_died']['pool']} pool + {dist['worker_died']['sequential']} sequential runs; "
+            f"options: {dist['options']['accepted']} accepted, {dist['options']['rejected']} rejected")
         need = set(FAIL_KINDS + PASS_KINDS)
         missing = [k for k in need if k not in dist["kinds"]]
         if missing:
             ctx.notes.append(f"outcome kinds not exercised in this run: {missing}")
+        # the scenarios must have reached their branches
+        if have_hook:
+            w = dist["worker_died"]
+            if dist["kinds"].get("worker_died", 0) == 0 or w["pool"] == 0 or w["sequential"] == 0 or w["others_all_theorem"] == 0 \
+                    or len(w["decomposition"]) < 2:
+                ctx.violation("internal: the worker_died scenario did not reach the branch `received != submitted` "
+                              "(no run in which a prover worker died was observed)", {"kind": "custom-cli", "evidence": w}, False)
+        if small_tasks and (dist["options"]["rejected"] == 0 or dist["options"]["sequential"] == 0 or dist["options"]["pool"] == 0):
+            ctx.violation("internal: the option-value stream did not reach all of accepted-sequential / accepted-pool / rejected",
+                          {"kind": "custom-cli", "evidence": dist["options"]}, False)
 
 
 def run_job(ctx, exe, fake, nopath, scratch, job):
-    scenario, (tname, eq, files, flags), probs, idx, seed = job
+    scenario, (tname, eq, files, flags), probs, idx, seed, params = job
     import random
     r = random.Random(seed)
     d = os.path.join(scratch, "run", f"{tname.replace('/', '_')}-{scenario}-{idx}")
     os.makedirs(os.path.join(d, "save"))
     out = {"scenario": scenario, "task": tname, "files": files, "flags": flags, "violations": [], "kinds": [],
-           "job": {"scenario": scenario, "task": tname, "equivalence": eq, "flags": flags, "idx": idx, "seed": seed,
+           "job": {"scenario": scenario, "task": tname, "equivalence": eq, "flags": flags, "idx": idx, "seed": seed, "params": params,
                    "files": [{"path": f, "content": (open(f, "rb").read().decode("latin1") if os.path.isfile(f) else None)} for f in files]}}
     V = out["violations"]
     names = sorted(probs)
     env = {"FAKE_VAMPIRE_DIR": d, "PATH": fake}
-    tl, cores = r.choice([1, 5, 60, 300]), r.choice([1, 1, 2, 4])
-    if scenario == "dead-worker":
-        n = idx
-        cmd = [exe, "verify", "--equivalence", eq, "--no-timing", "-n", str(n)] + files
-        rr = clilib.run(cmd, env=env, timeout=30)
-        out.update({"instances": n, "key": f"dead/{n}", "nontrivial": True})
-        text = rr.out.decode("utf8", "replace")
-        sub, arrivals, verdict = parse_stdout(text)
-        out["printed_verdict"] = verdict
-        out["invocations"] = len([f for f in os.listdir(os.path.join(d, "got"))]) // 2 if os.path.isdir(os.path.join(d, "got")) else 0
-        worker_died = b"panicked at" in rr.err
-        if rr.timed_out:
-            V.append(("verify hangs when a prover worker dies", {"stderr": rr.err.decode("latin1")[-500:]}))
-        elif worker_died and n == 1:
-            # sequential: the panic is in the main thread; there must be no verdict at all
-            out["model_verdict"] = None
-            if verdict is not None:
-                V.append(("a verdict was printed although proving panicked", {"stdout_tail": text[-400:]}))
-        elif worker_died:
-            out["model_verdict"] = False   # C10_dead_worker
-            out["kinds"] = ["worker_died"]
-            if verdict is not False:
-                V.append(("verify reports Success (or nothing) although a prover worker died without delivering a result",
-                          {"printed_verdict": verdict, "results_received": len(arrivals), "submitted": len(sub), "stdout_tail": text[-400:]}))
-        else:
-            # the rendering defect is gone: every problem reaches the stand-in, which answers Error (unplanned)
-            out["model_verdict"] = False
-            if verdict is not False:
-                V.append(("verify reports Success for unplanned problems", {"stdout_tail": text[-400:]}))
-        return out
+    tl, cores = str(r.choice([1, 5, 60, 300])), str(r.choice([1, 1, 2, 4]))
+    n = str(r.choice([1, 1, 2, 2, 3, 4, 5, 6, 7, 8, 8, 0]))
+    if scenario in ("options", "worker_died"):
+        n, cores = params["n"], params["m"]
+        tl = params.get("t", tl)
+    ncpu = params["ncpu"]
+    prefix = affinity_prefix(params.get("cpus"))
 
-    n = r.choice([1, 1, 2, 2, 3, 4, 5, 6, 7, 8, 8, 0])
+    # ---- what the model says about the option values
+    vals = [usize_of_text(x) for x in (tl, n, cores)]
+    if any(v is None for v in vals):
+        config = "(rejected)"          # not a numeral: refused by usize::from_str (outside the model)
+    else:
+        config = vlib.run_lines(vlib.DRIVER_EXE, [f"prover_config\t({vals[0]} {vals[1]} {vals[2]} {ncpu})"])[0]
     out["instances"] = n
+    out["key"] = f"{tname}/{scenario}/{idx}/{n}"
+    if config == "(rejected)":
+        cmd = prefix + [exe, "verify", "--equivalence", eq, "--no-timing", "-n", n, "-t", tl, "-m", cores] + flags + files
+        if scenario != "options":
+            raise RuntimeError("rejected option values outside the options scenario")
+        rr = clilib.run(cmd, env=env, timeout=60)
+        out["options"] = {"accepted": False}
+        out["kinds"] = ["option_value_rejected"]
+        out["nontrivial"] = True
+        got_dir = os.path.join(d, "got")
+        if rr.rc != 2 or rr.out != b"" or b"error:" not in rr.err or os.path.isdir(got_dir):
+            V.append(("an option value that is not a usize is not refused with exit status 2 and an error message",
+                      {"n": n, "t": tl, "m": cores, "rc": rr.rc, "timed_out": rr.timed_out, "stdout_head": rr.out[:300].decode("latin1"),
+                       "stderr": rr.err.decode("latin1")[-400:], "prover_started": os.path.isdir(got_dir)}))
+        return out
+    cparts = split_sexps(config)
+    if cparts[0] != "ok":
+        V.append(("model: the option values make Vampire::instances panic", {"config": config}))
+        return out
+    model_instances, model_seq = int(cparts[1]), cparts[2] == "seq"
+    model_argv = [bytes(x[1:-1], "latin1").decode("unicode_escape") for x in split_sexps(cparts[3])]
+    out["instances"] = model_instances if scenario != "plan" else n
+
+    # ---- worker_died: which problems, in submission order
+    order = None
+    dead = []
+    if scenario == "worker_died":
+        # the submission order: a reference run with one instance and no fault (the sequential iterator announces lazily)
+        dref = os.path.join(d, "ref")
+        os.makedirs(dref)
+        ref = clilib.run([exe, "verify", "--equivalence", eq, "--no-timing", "-n", "1"] + flags + files,
+                         env={"FAKE_VAMPIRE_DIR": dref, "PATH": fake, "FAKE_VAMPIRE_DEFAULT": "theorem"}, timeout=60)
+        order = parse_stdout(ref.out.decode("utf8", "replace"))[0]
+        if sorted(order) != names:
+            V.append(("the problems announced differ from the files written by --save-problems", {"announced": order, "files": names}))
+            return out
+        dead = [order[k] for k in params["positions"]]
+        env[HOOK_VARS[params["stage"]]] = ",".join(dead)
+
+    # ---- the plan
     plan = {}
     plan_lines = []
-    if scenario == "plan":
+    if scenario in ("plan", "options", "worker_died"):
         mode = r.random()
+        if scenario == "worker_died":
+            mode = 0.0 if r.random() < 0.7 else 0.9      # mostly: every other problem is proven (the case F10 got wrong)
+        elif scenario == "options":
+            mode = 0.0 if r.random() < 0.5 else 0.5
         fail_one = FAIL_KINDS[idx % len(FAIL_KINDS)]
         for k, nm in enumerate(names):
             h = clilib.fnv64(probs[nm])
@@ -342,6 +588,8 @@ def run_job(ctx, exe, fake, nopath, scratch, job):
                     kind = fail_one
             else:
                 kind = r.choice(FAIL_KINDS + PASS_KINDS)
+            if nm in dead and params["stage"] == "after" and kind in ("non_utf8_stdout", "non_utf8_stderr"):
+                kind = "Theorem"      # (the hook's second site is behind the conversion of the output: an Err returns before it)
             so, se, code, md = make_outcome(r, kind)
             delay = r.choice([0, 0, 5, 20, 40, 80, 120])
             plan[h] = (kind, so, se, code, md)
@@ -352,26 +600,50 @@ def run_job(ctx, exe, fake, nopath, scratch, job):
         env["PATH"] = nopath
     if scenario == "noread":
         env["FAKE_VAMPIRE_NOREAD"] = "1"
-    cmd = [exe, "verify", "--equivalence", eq, "--no-timing", "-n", str(n), "-t", str(tl), "-m", str(cores),
-           "--save-problems", os.path.join(d, "save")] + flags + files
+
+    cmd = prefix + [exe, "verify", "--equivalence", eq, "--no-timing", "-n", n, "-t", tl, "-m", cores,
+                    "--save-problems", os.path.join(d, "save")] + flags + files
     rr = clilib.run(cmd, env=env, timeout=60)
     text = rr.out.decode("utf8", "replace")
-    sub, arrivals, verdict = parse_stdout(text)
+    sub, arrivals, verdict, info = parse_stdout(text)
     out["printed_verdict"] = verdict
-    out["key"] = f"{tname}/{scenario}/{idx}/{n}"
-    if rr.crashed or rr.rc != 0:
-        V.append(("verify crashed or failed during proof search", {"rc": rr.rc, "timed_out": rr.timed_out, "stderr": rr.err.decode("latin1")[-600:]}))
+    expect_panic = bool(dead) and model_seq
+    if expect_panic:
+        if rr.rc != 101 or rr.timed_out or b"verif hook: the prover worker of problem" not in rr.err:
+            V.append(("one prover instance: `prove` panicked in the main thread but the process did not end with exit status 101",
+                      {"rc": rr.rc, "timed_out": rr.timed_out, "stderr": rr.err.decode("latin1")[-400:], "stdout_tail": text[-300:]}))
+            return out
+    elif (rr.crashed and not dead) or rr.timed_out or rr.rc != 0:
+        # (with a dead worker the panic message of the worker thread is on stderr: that alone is not a crash)
+        V.append(("verify hangs when a prover worker dies" if dead and rr.timed_out else "verify crashed or failed during proof search",
+                  {"rc": rr.rc, "timed_out": rr.timed_out, "stderr": rr.err.decode("latin1")[-600:]}))
+        return out
+    if dead and not model_seq and b"verif hook: the prover worker of problem" not in rr.err:
+        # (the messages of concurrent panics interleave on stderr: they are not counted)
+        V.append(("internal: the fault-injection hook did not fire", {"dead": dead, "stderr": rr.err.decode("latin1")[-600:]}))
         return out
     # names: distinct, and exactly the saved files
     saved = {}
     for fn in sorted(os.listdir(os.path.join(d, "save"))):
         saved[fn[:-2]] = open(os.path.join(d, "save", fn), "rb").read()
+    if order is None:
+        order = sub
+    announced_want = order if not expect_panic else order[:min(order.index(x) for x in dead) + 1]
     if len(set(sub)) != len(sub):
         V.append(("two problems of one task carry the same name", {"names": sub}))
-    if sorted(sub) != sorted(saved):
-        V.append(("the problems announced differ from the files written by --save-problems", {"announced": sub, "files": sorted(saved)}))
+    if sorted(order) != sorted(saved) or sub != announced_want:
+        V.append(("the problems announced differ from the files written by --save-problems", {"announced": sub, "expected": announced_want, "files": sorted(saved)}))
+        return out
     if saved != probs:
         V.append(("--save-problems wrote different files in two runs of the same task", {"first": sorted(probs), "second": sorted(saved)}))
+    # sequential or thread pool, as the model says for these option values
+    if info["interleaved"] is not None and info["interleaved"] != model_seq:
+        V.append(("the number of prover instances anthem used differs from the model: " +
+                  ("results were printed before all problems were announced (sequential), the model says thread pool" if info["interleaved"]
+                   else "all problems were announced before the first result (thread pool), the model says sequential"),
+                  {"n": n, "m": cores, "ncpu": ncpu, "model": config}))
+    if scenario == "options":
+        out["options"] = {"accepted": True, "sequential": model_seq, "instances": model_instances}
     # what the prover received
     got_dir = os.path.join(d, "got")
     got, args = [], []
@@ -383,31 +655,38 @@ def run_job(ctx, exe, fake, nopath, scratch, job):
             elif fn.endswith(".args"):
                 args.append(open(p).read().split("\n")[:-1])
     out["invocations"] = len(args)
-    if scenario in ("plan",):
-        if sorted(got) != sorted(saved.values()):
+    if scenario in ("plan", "options", "worker_died"):
+        # the problems that must have reached the prover
+        if not dead:
+            reach = list(order)
+        elif not model_seq:
+            reach = [x for x in order if x not in dead] if params["stage"] == "before" else list(order)
+        else:
+            first = min(order.index(x) for x in dead)
+            reach = order[:first] if params["stage"] == "before" else order[:first + 1]
+        if sorted(got) != sorted(saved[x] for x in reach):
             extra_in = [g for g in got if g not in saved.values()]
             V.append(("the prover did not receive exactly the --save-problems texts, each once",
-                      {"prover_invocations": len(got), "problems": len(saved),
+                      {"prover_invocations": len(got), "problems_expected_to_reach_the_prover": reach,
                        "first_unexpected_input_head": extra_in[0][:300].decode("latin1") if extra_in else None}))
-        want = ["--mode", "casc", "--time_limit", str(tl), "--cores", str(cores)]
-        badargs = [a for a in args if a != want]
+        badargs = [a for a in args if a != model_argv]
         if badargs:
-            V.append(("the prover was started with unexpected arguments", {"expected": want, "got": badargs[0]}))
+            V.append(("the prover was started with arguments that differ from the model's", {"expected": model_argv, "got": badargs[0]}))
     if scenario == "missing-executable" and args:
         V.append(("a prover ran although PATH has no vampire", {}))
     # the model's verdict for the arrivals in the order anthem saw them
-    if len(arrivals) != len(sub):
-        pass  # (a dead worker) - the model is told only about the arrivals
-    index = {nm: k for k, nm in enumerate(sub)}
+    index = {nm: k for k, nm in enumerate(order)}
     used = set()
     events = []
-    unnamed = []
     for pos, (nm, kind, detail) in enumerate(arrivals):
-        if nm is not None and nm in index and index[nm] not in used:
+        if nm is not None and nm in index and index[nm] not in used and nm not in dead:
             used.add(index[nm])
             events.append([index[nm], pos])
+        elif nm is not None:
+            V.append(("a result was printed for a problem twice, for an unknown problem, or for a problem whose worker died",
+                      {"name": nm, "arrivals": arrivals, "dead": dead}))
+            return out
         else:
-            unnamed.append(pos)
             events.append([None, pos])
 
     def outcome_of(k, printed_kind):
@@ -415,53 +694,134 @@ def run_job(ctx, exe, fake, nopath, scratch, job):
             return "(notstarted)"
         if scenario == "noread":
             return "(pipebroke)" if printed_kind == "error" else "(exited x x 1)"
-        kind, so, se, code, md = plan[clilib.fnv64(saved[sub[k]])]
+        kind, so, se, code, md = plan[clilib.fnv64(saved[order[k]])]
         return f"(exited {hexs(so)} {hexs(se)} {code})"
 
     # arrivals without a name (prover errors): give them the not-yet-used problems whose model result is an error first
-    free = [k for k in range(len(sub)) if k not in used]
-    if scenario == "plan":
+    free = [k for k in range(len(order)) if k not in used and order[k] not in dead]
+    if expect_panic:
+        free = [k for k in free if k < min(order.index(x) for x in dead)]
+    if plan:
         def is_err(k):
-            kind = plan[clilib.fnv64(saved[sub[k]])][0]
+            kind = plan[clilib.fnv64(saved[order[k]])][0]
             return kind in ("non_utf8_stdout", "non_utf8_stderr")
         free.sort(key=lambda k: (not is_err(k), k))
     for ev in events:
         if ev[0] is None and free:
             ev[0] = free.pop(0)
-    events = [ev for ev in events if ev[0] is not None]
-    line = "fan_in\t(" + str(len(sub)) + "".join(f" ({k} {outcome_of(k, arrivals[pos][1])})" for k, pos in events) + ")"
-    ans = vlib.run_lines(vlib.DRIVER_EXE, [line])[0]
+    if any(ev[0] is None for ev in events):
+        V.append(("more results were printed than problems could have delivered", {"arrivals": arrivals, "submitted": order, "dead": dead}))
+        return out
+    evtext = "".join(f" ({k} {outcome_of(k, arrivals[pos][1])})" for k, pos in events)
+    if model_seq:
+        # one instance: the results come in submission order
+        ks = [k for k, pos in events]
+        if ks != sorted(ks):
+            V.append(("one prover instance: the results were not printed in submission order", {"arrivals": arrivals, "submitted": order}))
+        fate = {k: outcome_of(k, arrivals[pos][1]) for k, pos in events}
+        first = min([order.index(x) for x in dead] + [len(order)])
+        fates = [fate.get(k, "(died)" if order[k] in dead else None) for k in range(len(order) if not dead else first + 1)]
+        if any(f is None for f in fates):
+            endline = None
+        else:
+            endline = "verify_end\t(seq " + " ".join(fates) + ")"
+    else:
+        endline = "verify_end\t(pool " + str(len(order)) + evtext + ")"
+    lines_ = ["fan_in\t(" + str(len(order)) + evtext + ")"] + ([endline] if endline else [])
+    answers = vlib.run_lines(vlib.DRIVER_EXE, lines_)
+    ans = answers[0]
     if not ans.startswith("(true") and not ans.startswith("(false"):
         V.append(("model driver could not evaluate the plan", {"answer": ans[:300]}))
         return out
     parts = split_sexps(ans)
     model_verdict = parts[0] == "true"
-    out["model_verdict"] = model_verdict
-    if scenario == "plan":
-        out["kinds"] = [plan[clilib.fnv64(saved[nm])][0] for nm in sub]
+    out["model_verdict"] = model_verdict if not expect_panic else None
+    if plan:
+        out["kinds"] = [plan[clilib.fnv64(saved[nm])][0] for nm in order if nm not in dead]
     else:
         out["kinds"] = [scenario]
     out["arrival_names"] = [a[0] for a in arrivals]
-    out["order_differs"] = [a[0] for a in arrivals if a[0]] != [s for s in sub if s in {a[0] for a in arrivals}]
-    out["nontrivial"] = verdict is not None
-    if verdict is None:
-        V.append(("no verdict line was printed", {"stdout_tail": text[-400:]}))
-    elif verdict != model_verdict:
-        V.append((f"anthem printed {'Success' if verdict else 'Failure'} where the model's verdict for the same prover outcomes is "
-                  f"{'Success' if model_verdict else 'Failure'}",
-                  {"model": ans[:1500], "arrivals": arrivals, "submitted": sub}))
-    if len(arrivals) != len(sub):
+    out["order_differs"] = [a[0] for a in arrivals if a[0]] != [s for s in order if s in {a[0] for a in arrivals}]
+    out["nontrivial"] = verdict is not None or expect_panic
+    # ---- the end of the run against the run-level model
+    mend = parse_model_end(answers[1]) if endline else None
+    last_lines = [ln for ln in text.split("\n") if ln.startswith("> Proving ended with") or ln.startswith("> Success") or ln.startswith("> Failure")]
+    if mend is None:
+        V.append(("the results printed do not fit the submission order of one prover instance (a problem without a result before the last one)",
+                  {"arrivals": arrivals, "submitted": order, "dead": dead, "model": answers[1:] }))
+    else:
+        have = {"count_line": info["count_line"], "verdict_line": info["verdict_line"], "exit": rr.rc, "results": len(arrivals)}
+        if have != mend:
+            what = "the end of the run differs from the model: "
+            if have["verdict_line"] != mend["verdict_line"]:
+                if mend["verdict_line"] is None:
+                    what = "a verdict was printed although proving panicked in the main thread"
+                elif have["verdict_line"] is None:
+                    what = "no verdict line was printed"
+                else:
+                    what = (f"anthem printed {'Success' if verdict else 'Failure'} where the model's verdict for the same prover outcomes is "
+                            f"{'Success' if model_verdict else 'Failure'}")
+                    if dead:
+                        what = "verify reports Success although a prover worker died without delivering a result"
+            elif have["count_line"] != mend["count_line"]:
+                what += "the line `> Proving ended with R results for S problems`"
+            elif have["exit"] != mend["exit"]:
+                what += "exit status"
+            else:
+                what += "number of results printed"
+            V.append((what, {"printed": have, "model": mend, "arrivals": arrivals, "submitted": order, "dead": dead,
+                             "fan_in": ans[:1200], "stdout_tail": text[-300:]}))
+    if dead:
+        # the oracle of the scenario, stated without the model
+        S, R = len(order), len(order) - len(dead)
+        first = min(order.index(x) for x in dead)
+        if model_seq:
+            ok = rr.rc == 101 and verdict is None and info["count"] is None and len(arrivals) == first
+        else:
+            ok = rr.rc == 0 and verdict is False and info["count"] == (R, S) and len(arrivals) == R
+        if not ok and not V:
+            V.append(("worker_died: the run does not end as the scenario requires (Failure, `R results for S problems`, exit status 0; "
+                      "one instance: exit status 101 without a verdict)",
+                      {"sequential": model_seq, "rc": rr.rc, "verdict": verdict, "count": info["count"], "expected_count": (R, S), "results": len(arrivals)}))
+        others_all = all(plan[clilib.fnv64(saved[x])][0] in PASS_KINDS for x in order if x not in dead)
+        out["kinds"] = out["kinds"] + ["worker_died"]
+        out["worker_died"] = {"pool": not model_seq, "first": first, "dead": len(dead), "stage": params["stage"], "names": dead,
+                              "decomposition": flags[flags.index("--decomposition") + 1] if "--decomposition" in flags else "default",
+                              "others_all_theorem": others_all, "last_lines": last_lines, "rc": rr.rc}
+    elif len(arrivals) != len(order):
         V.append(("the number of results differs from the number of problems although no worker died",
-                  {"results": len(arrivals), "submitted": len(sub), "stderr": rr.err.decode("latin1")[-300:]}))
-    if scenario in ("plan", "missing-executable"):
+                  {"results": len(arrivals), "submitted": len(order), "stderr": rr.err.decode("latin1")[-300:]}))
+    if scenario in ("plan", "missing-executable", "options", "worker_died"):
         for (k, pos), res in zip(events, parts[1:]):
             want = printed_of_model(res)
             have = (arrivals[pos][1], arrivals[pos][2])
             if want != have:
                 V.append(("the status anthem printed for a problem differs from the model's reading of the prover output",
-                          {"problem": sub[k], "printed": have, "model": res, "expected_print": want}))
+                          {"problem": order[k], "printed": have, "model": res, "expected_print": want}))
                 break
     return out
+
+
+def replay_known(ctx, e):
+    """known_findings.jsonl entries of C10 with a `cmd`: run it (behind the entry's `prefix`, e.g. prlimit) with the
+    stand-in prover answering Theorem for every problem; the finding is still there while the process crashes
+    without a verdict line, with the recorded message on stderr."""
+    import shutil
+    exe = clilib.anthem_exe()
+    fake = clilib.fake_vampire_dir()
+    prefix = list(e.get("prefix", []))
+    if prefix:
+        prefix[0] = shutil.which(prefix[0]) or prefix[0]
+        if not os.path.isfile(prefix[0]):
+            return False, f"cannot replay: `{e['prefix'][0]}` is not installed"
+    with clilib.Scratch("C10-known-" + e["id"]) as scratch:
+        f = clilib.write(os.path.join(scratch, e.get("input_name", "input.lp")), e["input_text"])
+        argv = [a.replace("{input}", f) for a in e["cmd"]]
+        rr = clilib.run(prefix + [exe] + argv, env={"FAKE_VAMPIRE_DIR": scratch, "PATH": fake, "FAKE_VAMPIRE_DEFAULT": "theorem"},
+                        timeout=e.get("timeout_s", 60))
+    verdict = parse_stdout(rr.out.decode("utf8", "replace"))[2]
+    still = verdict is None and (rr.crashed or rr.rc != 0) and e.get("stderr_contains", "").encode() in rr.err
+    return still, f"exit {rr.rc}, verdict {verdict}, stderr {rr.err[-200:].decode('latin1')!r}"
 
 
 def replay(ctx, cfg, r):
@@ -472,7 +832,7 @@ def replay(ctx, cfg, r):
         print(json.dumps(r, indent=1)[:4000])
         print(f"VIOLATION property={ctx.prop} replay=(recorded; no job to re-run)")
         sys.exit(1)
-    exe = clilib.anthem_exe()
+    exe = clilib.anthem_exe("verif" if job["scenario"] == "worker_died" else None)
     fake = clilib.fake_vampire_dir()
     with clilib.Scratch("C10-replay") as scratch:
         files = []
@@ -484,14 +844,17 @@ def replay(ctx, cfg, r):
         pre = os.path.join(scratch, "pre")
         os.makedirs(pre)
         probs = {}
-        if job["scenario"] != "dead-worker":
-            clilib.run([exe, "verify", "--equivalence", job["equivalence"], "--no-proof-search", "--save-problems", pre] + job["flags"] + files)
-            for fn in sorted(os.listdir(pre)):
-                probs[fn[:-2]] = open(os.path.join(pre, fn), "rb").read()
+        clilib.run([exe, "verify", "--equivalence", job["equivalence"], "--no-proof-search", "--save-problems", pre] + job["flags"] + files)
+        for fn in sorted(os.listdir(pre)):
+            probs[fn[:-2]] = open(os.path.join(pre, fn), "rb").read()
+        params = dict(job.get("params") or {})
+        params["ncpu"] = expected_ncpu(exe, fake, scratch, params.get("cpus"), "replay")[0]
         o = run_job(ctx, exe, fake, clilib.empty_path_dir(), scratch,
-                    (job["scenario"], (job["task"], job["equivalence"], files, job["flags"]), probs, job["idx"], job["seed"]))
-        print("scenario:", o["scenario"], " instances:", o.get("instances"))
+                    (job["scenario"], (job["task"], job["equivalence"], files, job["flags"]), probs, job["idx"], job["seed"], params))
+        print("scenario:", o["scenario"], " instances:", o.get("instances"), " parameters:", {k: v for k, v in params.items()})
         print("planned outcomes:", o.get("kinds"))
+        if o.get("worker_died"):
+            print("problems whose worker dies:", o["worker_died"]["names"], " last lines:", o["worker_died"]["last_lines"], " exit status:", o["worker_died"]["rc"])
         print("printed verdict:", o.get("printed_verdict"), " model verdict:", o.get("model_verdict"))
         for what, detail in o["violations"]:
             print("FAILS:", what)
